@@ -5,6 +5,8 @@ base = json.load(open("/root/.vp/BASELINE.json"))
 out = tempfile.mktemp(suffix=".junit.xml", dir=os.environ.get("TMPDIR", "/tmp"))
 env = dict(os.environ); env.pop("PYDCOP_VERIF", None)
 cmd = base["cmd"].replace("<file>", out)
+if len(sys.argv) > 1:
+    cmd = cmd.replace("cd /repo", "cd " + sys.argv[1])
 p = subprocess.run(cmd, shell=True, capture_output=True, text=True, env=env)
 passed = set()
 for tc in ET.parse(out).getroot().iter("testcase"):
